@@ -162,6 +162,47 @@ def check_tuple(h, ctx, op, args, z, executed, sv, minimal):
         raise Violation(case, 'OP_%s %r computes %r, expected %r' % (OPS[op], case['args'], st, [x.hex() for x in exp[1]]), observed=st, expected=[x.hex() for x in exp[1]])
 
 
+def run_ops(h, script, minimal=False):
+    g = h.req(kvline('run', script=script, flags=F['MINIMALDATA'] if minimal else 0, sv=0, z=1, mode='step', trace=0))
+    if 'crash' in g or 'exit' in g:
+        return ('crash', g)
+    if not g.get('ok'):
+        return ('err', g.get('err'))
+    return ('val', g['final']['st'])
+
+
+def w_relations(ctx, wid, seed):
+    """consistency relations between the arithmetic opcodes, independent of the rounding convention:
+    x OP_2DIV == x 2 OP_DIV, x OP_2MUL == x 2 OP_MUL, (a DIV b) * b + (a MOD b) == a, and |a MOD b| < |b| with the sign rule of one convention"""
+    h = Harness('plain')
+    nums = [n for n in NUMS] + [9, -9, 10, -10, 1000, -1000, 12345, -12345, 2 ** 30 + 1, -(2 ** 30 + 1)]
+    P_ = lambda n: G.push(R.num_enc(n), 1)
+    for x in nums:
+        a = run_ops(h, P_(x) + b'\x8e')
+        b = run_ops(h, P_(x) + P_(2) + b'\x96')
+        ctx.case('rel2div%d' % x, True, dict(relation='x OP_2DIV == x 2 OP_DIV', x=x, got=[a, b]), 'relation:2DIV')
+        if a != b:
+            ctx.violations.append(dict(campaign='relations', why='OP_2DIV and "2 OP_DIV" disagree for %d: %r vs %r (halving must be the same division)' % (x, a, b), case=dict(relation='2DIV', x=x), observed=[a, b], refails=3))
+            return
+        a = run_ops(h, P_(x) + b'\x8d')
+        b = run_ops(h, P_(x) + P_(2) + b'\x95')
+        ctx.case('rel2mul%d' % x, True, dict(relation='x OP_2MUL == x 2 OP_MUL', x=x), 'relation:2MUL')
+        if a != b:
+            ctx.violations.append(dict(campaign='relations', why='OP_2MUL and "2 OP_MUL" disagree for %d: %r vs %r' % (x, a, b), case=dict(relation='2MUL', x=x), observed=[a, b], refails=3))
+            return
+    for a_ in nums:
+        for b_ in nums:
+            if b_ == 0 or abs(a_) >= 2 ** 31 or abs(b_) >= 2 ** 31:
+                continue
+            # (a / b) * b + (a % b) == a
+            r = run_ops(h, P_(a_) + P_(b_) + b'\x96' + P_(b_) + b'\x95' + P_(a_) + P_(b_) + b'\x97' + b'\x93')
+            ctx.case('reldivmod%d,%d' % (a_, b_), True, None, 'relation:DIVMOD')
+            if abs((a_ // b_) * b_) < 2 ** 31 and r != ('val', [R.num_enc(a_).hex()]):
+                ctx.violations.append(dict(campaign='relations', why='(a DIV b) * b + (a MOD b) != a for a=%d b=%d: %r' % (a_, b_, r), case=dict(relation='DIVMOD', a=a_, b=b_), observed=r, refails=3))
+                return
+    h.close()
+
+
 def w_table(ctx, wid, seed, op, part, parts, tier):
     h = Harness('plain')
     tuples = operands(op)[part::parts]
@@ -188,6 +229,7 @@ def run(tier, t0):
         parts = max(1, min(8, n // 300))
         for p in range(parts):
             tasks.append((w_table, dict(op=op, part=p, parts=parts, tier=tier)))
+    tasks.append((w_relations, dict()))
     m = core.parallel(PID, tasks)
     m.exhaustive = (tier == 'thorough')
     return core.finish(PID, tier, m, RULE % len(V), t0, min_nontrivial=5000,
@@ -197,6 +239,10 @@ def run(tier, t0):
 
 def replay(rec):
     c = rec['case']
+    if 'relation' in c:
+        ctx = core.Ctx(PID)
+        w_relations(ctx, 0, 0)
+        return (not ctx.violations), str(ctx.violations[:1])
     op = [o for o, n in OPS.items() if n == c['op']][0]
     h = Harness('plain')
     try:
